@@ -117,6 +117,26 @@ RAW = [
     ("def h(x, scale=2): return x * scale\n", "h(e.a)"),
     ("def h(x, scale=2): return x * scale\n", "h(e.a, scale=e.b)"),
     ("def h(x, *, scale=2): return x * scale\n", "h(e.a)"),
+    # helpers with TWO defaulted parameters under every call shape
+    ("def h(x, scale=2, shift=7): return x * scale + shift\n", "h(e.a)"),
+    ("def h(x, scale=2, shift=7): return x * scale + shift\n", "h(e.a, 4)"),
+    ("def h(x, scale=2, shift=7): return x * scale + shift\n", "h(e.a, shift=1)"),
+    ("def h(x, scale=2, shift=7): return x * scale + shift\n", "h(x=e.a, scale=3)"),
+    ("def h(x, scale=2, shift=7): return x * scale + shift\n", "h(shift=e.b, x=e.a)"),
+    ("def h(x, scale=2, shift=7): return x * scale + shift\n", "h(e.a, 4, 5) + h(e.b, shift=0)"),
+    ("h = (lambda x, scale=2, shift=7: x * scale + shift)\n", "e.jets.Select(lambda j: h(j.pt, shift=e.a))"),
+    # comprehensions with two for clauses whose second iterates through the first variable; the value is compared after
+    # flattening (what two for clauses lower to is not prescribed: the leaves are)
+    ("FLAT:def h(x): return [t.q for j in x.jets for t in j.tr]\n", "(lambda j: h(j))(e)"),
+    ("FLAT:def h(j): return [t.q for j in j.jets for t in j.tr]\n", "h(e)"),
+    ("FLAT:def h(x): return [t.q + j.pt for j in x.jets for t in j.tr]\n", "e.jets.Select(lambda j: h(e))"),
+    ("FLAT:def h(x, j): return [t.q + j for j2 in x.jets for t in j2.tr]\n", "(lambda j2: h(j2, j2.a))(e)"),
+    # the query lambda is written inside a function whose LOCAL variable is spelled like a module global that a module-level helper reads
+    ("W = 5\ndef g(v): return v + W\ndef build(ds, W=100):\n    return ds.Select(\n        lambda e: g(e.a) * W\n    )\n", "REF:g(e.a) * 100"),
+    ("W = 5\ndef g(v): return v + W\ndef h(v): return g(v) + 1\ndef build(ds):\n    W = 100\n    return ds.Select(\n        lambda e: (h(e.a), W)\n    )\n",
+     "REF:(h(e.a), 100)"),
+    ("W = 5\ndef g(v): return v + W\ndef build(ds):\n    def inner(W):\n        return ds.Select(\n            lambda e: e.jets.Select(lambda j: g(j.pt) + W)\n        )\n    return inner(100)\n",
+     "REF:e.jets.Select(lambda j: g(j.pt) + 100)"),
     # a BOUND METHOD captured under a plain name: its function has one parameter more than the call has arguments
     ("class K:\n    off = 5\n    def m(self, x): return x + 1\nh = K().m\n", "h(e.a)"),
     ("class K:\n    def __init__(self): self.off = 5\n    def m(self, x): return x + self.off\nh = K().m\n", "h(e.a)"),
@@ -212,8 +232,13 @@ class C05(Check):
         res = {"n": 0, "nt": [canon], "oc": [], "tags": {}, "viol": []}
         g = {"len": len, "list": list, "abs": abs, "EFFECTS": []}
         pre = []
+        flat = False
+        own_build = False
         if form == "raw":
             text = body  # the helper definitions written out in full
+            if text.startswith("FLAT:"):
+                flat, text = True, text[5:]
+            own_build = "def build(" in text  # the case brings its own build(); the site is the REFERENCE body (locals written out)
         elif o is None:
             text = helper_def("h", params, body, form)
         else:
@@ -231,8 +256,11 @@ class C05(Check):
         elif form == "closure":
             text = "OFF = 99\n" + text
         site = site_tpl.format(H="h")
+        if site.startswith("REF:"):
+            site = site[4:]
         lam_src = f"lambda e: {site}"
-        text += f"def build(ds):\n    return ds.Select(\n        {lam_src}\n    )\n"
+        if not own_build:
+            text += f"def build(ds):\n    return ds.Select(\n        {lam_src}\n    )\n"
         _N[0] += 1
         fn = f"<c05mod{_N[0]}>"
         linecache.cache[fn] = (len(text), None, text.splitlines(True), fn)
@@ -281,6 +309,8 @@ class C05(Check):
             del g["EFFECTS"][:]
             got = refsem.evaluate(fq, d)
             res["n"] += 1
+            if flat and got[0] == "ok":
+                want, got = ("ok", sorted(_leaves(want[1]), key=repr)), ("ok", sorted(_leaves(got[1]), key=repr))
             if got == want and sorted(g["EFFECTS"]) != sorted(eff_want):
                 res["oc"].append("effects-differ")
                 res["viol"].append({"kind": "helper-statement-dropped", "canon": canon,
@@ -300,6 +330,15 @@ class C05(Check):
 
     def render(self, space_name, payload):
         return repr(payload)
+
+
+def _leaves(v):
+    if isinstance(v, (list, tuple)):
+        out = []
+        for x in v:
+            out += _leaves(x)
+        return out
+    return [v]
 
 
 def _unparse(a):
